@@ -150,6 +150,11 @@ def generate(unit, repo_src=None, modes=None, probe=False):
             if sf.string_concat and not body_dropped:
                 from .splice import fold_string_concat
                 fold_string_concat(f, fn, ed, c)
+            if spec is not None and not body_dropped:
+                mc = {op[1]: op[2] for op in spec.ops if op[0] == 'mapcollect'}
+                if mc or getattr(sf, 'map_collect', False):
+                    from .splice import rewrite_map_collect
+                    rewrite_map_collect(f, fn, ed, c, mc)
             if sf.dyn_calls and not body_dropped:
                 from .splice import rewrite_dyn_calls
                 rewrite_dyn_calls(f, fn, ed, c)
